@@ -130,6 +130,8 @@ def border_partition(n: int, edges: List[Tuple[int, int]], flags: Tuple[bool, ..
 
 
 def run(repo: Repo, rep: Report) -> None:
+    from .encodings import engine_selfcheck
+    engine_selfcheck(rep)
     rep.rule("ENC-S", "variable-group division posts the reference root/rank/tree-edge/size-accounting schema; the border form ties each border flag to 'different group ids' or uses the native operator (deviations triaged by projection)")
     rep.rule("ALG-4D", "grid/border form: the inner frame is dualised so that each border variable lies on the edge between the two cells it separates")
     rep.saw(GRAPH, "_division_connected_variable_groups")
